@@ -1,13 +1,17 @@
 import KoordVerif.Common.Proto
 import KoordVerif.Model.C12
 import KoordVerif.Model.C12Static
+import KoordVerif.Model.C12Env
 /-
 Driver for C12.  One case = one history on one cgroup tree:
   tree <res> <v2> <n> <parent_0..parent_{n-1}> <old_0..old_{n-1}>
       res: 0 cpuset.cpus 1 cpu.cfs_quota_us 2 memory.min 3 memory.low 4 memory.high 5 memory.limit_in_bytes
       values: cpuset = bitmask; limits = integer, -1 unlimited.  (parents are not used by the executor.)
   batch <expired> <L> <len_0..len_{L-1}> (<node> <tgt>)*      tgt -2 = a string IsValid rejects
-Output per batch: `w <node> <value>` for every file write in order, then `st <v_0..v_{n-1}>`.
+  rm <node>            the cgroup directory of <node> does not exist from now on (no output)
+  mk <node> <value>    the runtime creates the directory of <node> with this content (no output)
+Output per batch: `w <node> <value>` for every file write in order, then `st <v_0..v_{n-1}>`
+(a missing directory keeps its last value in `st`).
 The ResourceCache persists across the batches of a case.
 
 Second kind of case (harness `nonepolicy`, applyCPUSetWithNonePolicy on the BE cpuset dirs):
@@ -51,7 +55,7 @@ def pairUp : List Int → Option (List (Int × Int))
   | [_] => none
   | a :: b :: r => (pairUp r).map ((a, b) :: ·)
 
-def runBatchLine {α} (R : Run α) (n : Nat) (s : St α) (args : List Int) : Option (St α × List String) := do
+def runBatchLine {α} (R : Run α) (n : Nat) (ex : Nat → Bool) (s : St α) (args : List Int) : Option (St α × List String) := do
   match args with
   | expired :: l :: rest =>
     if l < 0 then none
@@ -63,24 +67,36 @@ def runBatchLine {α} (R : Run α) (n : Nat) (s : St α) (args : List Int) : Opt
     if pairs.any (fun p => p.1 < 0 || p.1 ≥ n) then none
     let upds : List (Upd α) := pairs.map fun p => { node := p.1.toNat, tgt := R.ofInt p.2 }
     let levels ← splitBy (lens.map Int.toNat) upds
-    let r := runBatch R.D (expired ≠ 0) levels s
+    let r := runBatchE R.D (expired ≠ 0) ex levels s
     let vals := (List.range n).map r.1.files
     let s' : St α := { files := listFn R.dflt vals, cache := listFn none ((List.range n).map r.1.cache), skip := [] }
     let out := r.2.map (fun w => s!"w {w.1} {R.toInt w.2}") ++ ["st " ++ showInts (vals.map R.toInt)]
     pure (s', out)
   | _ => none
 
-def runLines {α} (R : Run α) (n : Nat) : St α → List String → List String
-  | _, [] => []
-  | s, line :: rest =>
+def runLines {α} (R : Run α) (n : Nat) : List Bool → St α → List String → List String
+  | _, _, [] => []
+  | ex, s, line :: rest =>
     match toks line with
     | "batch" :: ts =>
       match ints? ts with
       | some args =>
-        match runBatchLine R n s args with
-        | some (s', out) => out ++ runLines R n s' rest
+        match runBatchLine R n (listFn true ex) s args with
+        | some (s', out) => out ++ runLines R n ex s' rest
         | none => ["bad-op"]
       | none => ["bad-op"]
+    | "rm" :: ts =>
+      match ints? ts with
+      | some [i] => if i < 0 || i ≥ n then ["bad-op"] else runLines R n (ex.set i.toNat false) s rest
+      | _ => ["bad-op"]
+    | "mk" :: ts =>
+      match ints? ts with
+      | some [i, v] =>
+        if i < 0 || i ≥ n then ["bad-op"] else
+        match R.ofInt v with
+        | some x => runLines R n (ex.set i.toNat true) { s with files := setAt s.files i.toNat x } rest
+        | none => ["bad-op"]
+      | _ => ["bad-op"]
     | _ => ["bad-op"]
 
 def parentFn (ps : List Int) : Nat → Option Nat := fun i =>
@@ -117,7 +133,7 @@ def runNoneLines (n : Nat) (depth : Nat → Nat) : St Nat → List String → Li
 
 def startWith {α} (R : Run α) (n : Nat) (olds : List Int) (rest : List String) : List String :=
   match olds.mapM R.ofInt with
-  | some vs => runLines R n { files := listFn R.dflt vs, cache := fun _ => none, skip := [] } rest
+  | some vs => runLines R n (List.replicate n true) { files := listFn R.dflt vs, cache := fun _ => none, skip := [] } rest
   | none => ["bad-op"]
 
 def runCase (lines : List String) : List String :=
